@@ -32,8 +32,8 @@ HIST = ["plain", "queried", "slice", "hadamard"] + [
 
 def cells(tier, seed):
     out = []
-    Ds = (1, 2, 3) if tier == "quick" else (1, 2, 3, 4, 5, 6)
-    Rs = (1, 3) if tier == "quick" else (1, 2, 4)
+    Ds = (1, 2, 3, 5) if tier == "quick" else (1, 2, 3, 4, 5, 6)
+    Rs = (1, 3) if tier == "quick" else (1, 2, 4, 6)
     reps = 1 if tier == "quick" else 4
     for mk in build.MEASURE_KINDS:
         for R in Rs:
